@@ -2,6 +2,7 @@
 // M3: complete products parameter alphabet x argument grid (support boundaries, both sides of every branch, far tails).
 #include "mc/mc.hpp"
 #include "mc/exit_trap.hpp"
+#include "mc/purity.hpp"
 #include "libphysica/Statistics.hpp"
 #include "libphysica/Special_Functions.hpp"
 using namespace libphysica;
@@ -403,6 +404,42 @@ static void kde_lattice(unsigned long long& unit)
 	}
 }
 
+// ---- call histories: densities, masses, CDFs, likelihoods and the KDE are functions of their arguments only ------------------------
+static void histories(unsigned long long& unit)
+{
+	std::vector<mc::PureLetter> L;
+	auto add = [&](const std::string& n, std::function<double()> f) { L.push_back({n, [f]() { return mc::hexd(f()); }}); };
+	add("PDF_Uniform(0.3,0,1)", []() { return PDF_Uniform(0.3, 0, 1); });
+	add("CDF_Uniform(0.3,-3,5)", []() { return CDF_Uniform(0.3, -3, 5); });
+	add("PDF_Gauss(1,0.5,2)", []() { return PDF_Gauss(1, 0.5, 2); });
+	add("CDF_Gauss(-7,0,1)", []() { return CDF_Gauss(-7, 0, 1); });
+	add("Quantile_Gauss(0.975,0,1)", []() { return Quantile_Gauss(0.975, 0, 1); });
+	add("Quantile_Gauss(1e-7,3,0.1)", []() { return Quantile_Gauss(1e-7, 3, 0.1); });
+	add("PMF_Binomial(20,0.3,7)", []() { return PMF_Binomial(20, 0.3, 7); });
+	add("CDF_Binomial(170,0.5,85)", []() { return CDF_Binomial(170, 0.5, 85); });
+	add("PMF_Poisson(3.5,2)", []() { return PMF_Poisson(3.5, 2); });
+	add("PMF_Poisson(250,300)", []() { return PMF_Poisson(250, 300); });
+	add("PMF_Poisson(0.001,0)", []() { return PMF_Poisson(0.001, 0); });
+	add("CDF_Poisson(31.6,40)", []() { return CDF_Poisson(31.6, 40); });
+	add("Inv_CDF_Poisson(5,0.9)", []() { return (double)Inv_CDF_Poisson(5, 0.9); });
+	add("PDF_Chi_Square(3.3,4)", []() { return PDF_Chi_Square(3.3, 4); });
+	add("CDF_Chi_Square(350,344)", []() { return CDF_Chi_Square(350, 344); });
+	add("CDF_Chi_Square(0.2,0.5)", []() { return CDF_Chi_Square(0.2, 0.5); });
+	add("PDF_Chi_Bar_Square(2,{.25,.5,.25})", []() { return PDF_Chi_Bar_Square(2, {0.25, 0.5, 0.25}); });
+	add("CDF_Chi_Bar_Square(2,{.1,.2,.3,.4})", []() { return CDF_Chi_Bar_Square(2, {0.1, 0.2, 0.3, 0.4}); });
+	add("PDF_Exponential(0.7,2)", []() { return PDF_Exponential(0.7, 2); });
+	add("CDF_Exponential(0.7,2)", []() { return CDF_Exponential(0.7, 2); });
+	add("PDF_Maxwell_Boltzmann(1.2,0.8)", []() { return PDF_Maxwell_Boltzmann(1.2, 0.8); });
+	add("CDF_Maxwell_Boltzmann(1e-3,0.8)", []() { return CDF_Maxwell_Boltzmann(1e-3, 0.8); });
+	add("Likelihood_Poisson(3,5,1.5)", []() { return Likelihood_Poisson(3, 5, 1.5); });
+	add("Log_Likelihood_Poisson(3,0,0)", []() { return Log_Likelihood_Poisson(3, 0, 0); });
+	add("Log_Likelihood_Poisson_Binned(3 bins)", []() { return Log_Likelihood_Poisson_Binned({1.5, 2.0, 0.7}, {2, 0, 1}, {0.5, 0.1, 0}); });
+	add("Likelihood_Poisson_Binned(2 bins, no background)", []() { return Likelihood_Poisson_Binned({1.5, 2.0}, {2, 3}); });
+	add("KDE{1,2,2.5,4}(2.2)", []() { std::vector<DataPoint> d{DataPoint(1, 1), DataPoint(2, 0.5), DataPoint(2.5, 2), DataPoint(4, 1)}; Interpolation K = Perform_KDE(d, 0, 6); return K(2.2); });
+	add("KDE{7 points}(0.1)", []() { std::vector<DataPoint> d; for(int i = 0; i < 7; i++) d.push_back(DataPoint(0.4 + 0.6 * i, 1 + (i % 3))); Interpolation K = Perform_KDE(d, 0, 6, 0.3); return K(0.1); });
+	g_cases += mc::purity("histories", L, mc::thorough() ? 3 : 2, unit);
+}
+
 int main(int argc, char** argv)
 {
 	mc::init(argc, argv);
@@ -415,6 +452,7 @@ int main(int argc, char** argv)
 	likelihoods(unit);
 	kde(unit);
 	kde_lattice(unit);
+	histories(unit);
 	mc::count("evaluations", g_cases);
 	mc::count("distinct_nontrivial", g_cases);
 	mc::count("pdf_integrals", g_intervals);
